@@ -470,3 +470,7 @@ package kv
 //@ ensures err == nil ==> res != nil && len(res.Puts) == len(b.Puts) && len(res.Deletes) == len(b.Deletes) && len(res.DeleteRanges) == len(b.DeleteRanges)
 //@ ensures d.versionIdTracker.v >= old(d.versionIdTracker.v) && d.versionIdTracker.v <= old(d.versionIdTracker.v) + len(b.Puts)
 //@ modifies *
+
+//@ func DB.ReadCommitOffset
+//@ trusted
+//@ modifies nothing
